@@ -314,3 +314,30 @@ Theorem mode_independent_all : forall data w h, 4 * w < 2 ^ 64 -> 4 * (w * h) < 
   (forall fmt, decode_pixel_data Checked data w h fmt = decode_pixel_data Wrapping data w h fmt) /\
   (forall alpha, etc1_decode Checked data w h alpha = etc1_decode Wrapping data w h alpha).
 Proof. intros data w h Hw Hsz. split; intros; [apply decode_mode_independent|apply etc1_mode_independent]; assumption. Qed.
+
+(* ---------------- ETC1A4: alpha and colour are independent ---------------- *)
+Lemma decode_block_nth a p x y : x < 4 -> y < 4 ->
+  nth (N.to_nat (4 * y + x)) (decode_block a p) ZERO_PX = texel p a (fst (block_colors p)) (snd (block_colors p)) x y.
+Proof.
+  intros Hx Hy.
+  assert (Cx : x = 0 \/ x = 1 \/ x = 2 \/ x = 3) by lia. assert (Cy : y = 0 \/ y = 1 \/ y = 2 \/ y = 3) by lia.
+  unfold decode_block. destruct (block_colors p) as [c1 c2]. cbn [fst snd].
+  destruct Cx as [->|[->|[->| ->]]]; destruct Cy as [->|[->|[->| ->]]]; reflexivity.
+Qed.
+
+Lemma texel_alpha p a c1 c2 px py : nth 3 (texel p a c1 c2 px py) 0 = 17 * field a (4 * (4 * px + py)) 4.
+Proof.
+  unfold texel. cbn [nth]. change 0xF with (N.ones 4). rewrite band_shr_field.
+  rewrite alpha_spec by apply (field_lt _ _ 4). do 2 f_equal. lia.
+Qed.
+
+(* every texel of every block (in range or not): alpha = 17 * its nibble of the alpha word, whatever the colour word;
+   r, g, b do not depend on the alpha word (in particular an all-zero alpha word does not blank the colour) *)
+Theorem etc1a4_alpha_colour_independent : forall a p x y, x < 4 -> y < 4 ->
+  nth 3 (nth (N.to_nat (4 * y + x)) (decode_block a p) ZERO_PX) 0 = 17 * field a (4 * (4 * x + y)) 4 /\
+  forall a', firstn 3 (nth (N.to_nat (4 * y + x)) (decode_block a p) ZERO_PX) =
+             firstn 3 (nth (N.to_nat (4 * y + x)) (decode_block a' p) ZERO_PX).
+Proof.
+  intros a p x y Hx Hy. rewrite decode_block_nth by assumption. split; [apply texel_alpha|].
+  intros a'. rewrite decode_block_nth by assumption. reflexivity.
+Qed.
